@@ -176,8 +176,8 @@ package server
 
 //@ func (*Server).serve$3(ctx context.Context, conn *connection)
 //@   requires s != nil && conn != nil && c != nil && ctx != nil && conn.conn != nil && conn.assembler != nil && conn.onErrorFunc != nil && asmCalls == connWrites && muState == 0
-//@   safety[C17]
-//@   structural[C17]
+//@   safety[C16,C17]
+//@   structural[C16,C17]
 //@   modifies conn.isBeingHandled, s.activeConnections, s.activeConnectionCount, connReads, connWrites, asmCalls, lastAsmOut, lastReadN, lastReadBuf, errorCbs, tracks, untracks, closes, closeCbs, faults, liveCount, atomicTrueLoads, dataReads, asmInv, lastBoolStore
 //@   ensures[C17.once] closes == old(closes) + 1 && untracks == old(untracks) + 1 && tracks == old(tracks)
 //@   ensures[C17.once] s.OnCloseConnFunc != nil ==> closeCbs == old(closeCbs) + 1
